@@ -712,6 +712,15 @@ class DiffARBF(DiffRBF):
     def hyperparameter_scale(self):
         return Hyperparameter("scale", "numeric", self.scale_bounds, len(self.scale))
 
+    def set_params(self, **params):
+        # The theta setter of sklearn passes a one-element scale (order 0) as a scalar
+        if (
+            params.get("order", self.order) == 0
+            and np.ndim(params.get("scale", [])) == 0
+        ):
+            params["scale"] = np.array([params["scale"]])
+        return super(DiffARBF, self).set_params(**params)
+
     def diag(self, X):
         nfeat = X.shape[1]
         comb_list = []
@@ -741,7 +750,7 @@ class DiffARBF(DiffRBF):
             derivs = np.zeros((X.shape[0], Y.shape[0], deriv_size))
         for i in range(self.order):
             sk.append(np.sum(k0 ** (i + 1), axis=-1))
-        en = [1]
+        en = [np.ones(k0.shape[:2])]
         for n in range(self.order):
             en.append(sk[n] * (-1) ** n)
             for k in range(n):
@@ -795,7 +804,7 @@ class DiffARBF(DiffRBF):
         sk = []
         for i in range(self.order):
             sk.append(np.sum(k0 ** (i + 1), axis=-1))
-        en = [1]
+        en = [np.ones(k0.shape[:2])]
         for n in range(self.order):
             en.append(sk[n] * (-1) ** n)
             for k in range(n):
@@ -909,6 +918,15 @@ class DiffAdditiveMixin(DiffKernelMixin):
     def hyperparameter_scale(self):
         return Hyperparameter("scale", "numeric", self.scale_bounds, len(self.scale))
 
+    def set_params(self, **params):
+        # The theta setter of sklearn passes a one-element scale (order 0) as a scalar
+        if (
+            params.get("order", self.order) == 0
+            and np.ndim(params.get("scale", [])) == 0
+        ):
+            params["scale"] = np.array([params["scale"]])
+        return super(DiffAdditiveMixin, self).set_params(**params)
+
     def get_zero_derivs(self, X, Y):
         deriv_size = 0
         if not self.hyperparameter_length_scale.fixed:
@@ -926,7 +944,7 @@ class DiffAdditiveMixin(DiffKernelMixin):
         sk = []
         for i in range(self.order):
             sk.append(np.sum(k0 ** (i + 1), axis=-1))
-        en = [1]
+        en = [np.ones(k0.shape[:2])]
         for n in range(self.order):
             en.append(sk[n] * (-1) ** n)
             for k in range(n):
@@ -979,7 +997,7 @@ class DiffAdditiveMixin(DiffKernelMixin):
         sk = []
         for i in range(self.order):
             sk.append(np.sum(k0 ** (i + 1), axis=-1))
-        en = [1]
+        en = [np.ones(k0.shape[:2])]
         for n in range(self.order):
             en.append(sk[n] * (-1) ** n)
             for k in range(n):
